@@ -44,6 +44,9 @@ CLAIMED = {
     "C32": ("MUSTCHECK (end-of-input test on every accepting path after a stream extraction, through helper summaries), TABLE (non-finite tokens written vs read), AGREE (read/write overload sets and element order)",
             "Static decision of the structural clauses of C32 (DESIGN section 3): every text->value conversion reports success only after checking that the whole string was consumed; the non-finite tokens written are among "
             "those the readers accept; every writable type is readable (tabled exceptions) with the same sub-object order. Digit-exact float round trips, XML escaping and TinyXML parsing are not decided."),
+    "C31": ("EFFECT-compare: mod-set of the value producers vs reset-set of setSeed per dynamic class, with a dead-under-guard table whose guards are checked",
+            "Static decision of 'deterministic functions of their seed' (DESIGN section 3, C31): every generator field that producing values modifies is re-initialised by setSeed of the same class "
+            "(which must call its base) or is unreadable until rewritten because setSeed resets its guard. Ranges, integer-mode bounds and statistics are not decided."),
 }
 NA = {
  "C01": "numerical identity between O(n) recursions; no clause is visible in the shape of the code",
